@@ -10,7 +10,7 @@ def parseVals (toks : List String) : Array BV4 := (toks.map BV4.ofString).toArra
 
 def resetCase (s : St) (id mode : String) : St :=
   { s with caseId := id, mode := mode, vals := #[], net := #[], netTy := #[], netName := #[], xo := #[], env := #[], stim := "",
-           cycle := 0, runIsAbs := true, absSeqNv := #[], absSeqXv := #[],
+           cycle := 0, ctEval := none, runIsAbs := true, absSeqNv := #[], absSeqXv := #[],
            implNv := #[], absNv := #[], absXv := #[], haveAbs := false, unsafeReason := "", litStr := "", cases := s.cases + 1 }
 
 /-- `v <k> <op> a<i>… <num>… [str] -> <t> <w> <p>` | `… -> e` -/
@@ -93,15 +93,26 @@ def step (s : St) (line : String) : St :=
     let allZero := s.vals.toList.all fun r => r.w == 0
     let s := { s with crashCases := s.crashCases + 1 }
     let (opn, cls) :=
-      if s.mode == "const" then ("dag", if zero then "crash/construction-time-eval-zero-width" else "crash/construction-time-eval")
+      if s.mode == "const" then
+        -- exact shape: the crash happened while a zero-width expression was being evaluated at construction time
+        match s.ctEval with
+        | some k => ("dag", if (s.vals.getD k {}).w == 0 then "crash/construction-time-eval-zero-width" else "crash/construction-time-eval-other")
+        | none => ("dag", "crash/const-design-simulation")
       else if s.mode == "lit" then ("literal", "crash/literal")
-      else if allZero then ("any", "design-without-state-bits/crash")
+      else if allZero then
+        -- exact shape of the known crash: no state bits at all and a rewire node with an empty INPUT range (cat/pack of a
+        -- zero-width operand, rot(x, 0)): `Node_Rewire` reads `values[0]` of an empty state
+        let emptyRange := s.net.any fun n => match n.kind with
+          | .node (.rewire rs) _ => rs.any fun r => r.subwidth == 0 && (match r.src with | .input _ _ => true | _ => false)
+          | _ => false
+        ("any", if emptyRange then "design-without-state-bits/crash" else "design-without-state-bits/crash-other")
       else (if s.mode == "op" then ops else "dag", if zero then "crash/simulation-zero-width" else "crash/simulation")
     s.propfail s!"op={opn} class={cls} signal=[{" ".intercalate rest}] ops=[{ops}] lit=[{s.litStr}]: the code under test crashed"
   | "stim" :: k :: _ => { s with stim := k, haveAbs := false, stims := s.stims + 1, runIsAbs := true, absSeqNv := #[], absSeqXv := #[] }
   | "stimc" :: k :: _ => { s with stim := k, stims := s.stims + 1, runIsAbs := false }
   | ["cyc", t] => { s with cycle := t.toNat!, stims := s.stims + 1 }
   | "reg" :: _ => s
+  | ["cteval", k] => { s with ctEval := if k == "done" then none else some k.toNat! }
   | ["pv", k, bits] => { s with env := s.env.setIfInBounds k.toNat! (BV4.ofString bits) }
   | "nv" :: rest => { s with implNv := parseVals rest }
   | "xv" :: rest =>
